@@ -431,6 +431,16 @@ def r08_4(ctx, A, pv, masked_fn, crc_fn):
         ctx.check(R, ok_rng, 'verify-range', 'verify() must hash exactly the bytes [0, len-4) of the file: %s' % why, fn=v)
     if n == 0:
         ctx.undecided(R, 'verify-paths', 'no success path in verify()', fn=v)
+    # an intact file is never rejected: the only errors verify() raises are "no checksum stored" and "checksum differs"
+    import vsplit
+    bad = set()
+    for p in vsplit.vpaths(ctx.lib, v, enter=False, havoc=True):
+        rv = p.ret()
+        errs = [x[1].rsplit('::', 1)[-1] for x in walk(rv) if x[0] == 'agg' and x[1].startswith('raw::error::Error::')]
+        for e_ in errs:
+            if e_ not in ('ChecksumMissing', 'ChecksumMismatch'):
+                bad.add(e_)
+    ctx.check(R, not bad, 'verify-errors', 'verify() can fail with %s: a structural test in front of the checksum comparison rejects files whose every byte is intact (and is no substitute for the comparison)' % sorted(bad), fn=v)
 
 
 def strip_after(e):
@@ -451,3 +461,10 @@ def run(ctx):
     cf = ctx.step(r08_3, ctx)
     ctx.step(r08_4, ctx, A, pv, mf, cf)
     ctx.step(C07.r07_1, ctx, A, pv)
+    # the `fst verify` command certifies a file only if opening AND verifying succeeded: no failure of either is dropped or matched away
+    if ctx.bin is not None:
+        import rules.C11 as C11
+        R5 = ctx.rule('R08.5', 'fst verify: every failure of opening / verifying the file reaches the exit status', floor=1)
+        scope = {f.path: f for f in ctx.bin.fn_list if f.path.startswith('cmd::verify::')}
+        n, hits = C11.r11_1_2(ctx, ctx.bin, scope, R5, R5)
+        ctx.check(R5, n >= 2, 'verify-cmd', 'the verify command no longer produces the two results (open, verify) the rule follows: %d' % n, kind='anchor-missing')
